@@ -8,7 +8,9 @@ short-circuit and return the deciding VALUE (not a bool), `if` applies truthines
 returns None.  AttributeError / TypeError / KeyError / IndexError of the Python are `Raise ...` values of the model.
 
 SUPPORTED SUBSET (anything else raises Unsupported -> the caller reports a broken obligation)
-  statements   docstring; `x = e`; `a = b = e`; `return [e]`; `pass`; `if / elif / else` (a branch that falls through
+  statements   docstring; `x = e`; `a = b = e`; `return [e]` (statements behind an unconditional return never run and are
+               ignored; yield/global/nonlocal anywhere in the function are refused); `pass`;
+               `if / elif / else` (a branch that falls through
                continues with the statements after the `if`; variables assigned in only one branch and not defined
                before are undefined afterwards); `for x in e:` / `for i, x in enumerate(e):` (no break/continue/else;
                `return` inside the body is allowed; the loop state is the set of variables assigned in the body that
@@ -17,7 +19,8 @@ SUPPORTED SUBSET (anything else raises Unsupported -> the caller reports a broke
                of the transparent form `except E [as e]: print(...); raise E [from e]`;
                `if <constant parameter>:` is resolved at translation time (see const_params).
   expressions  None True False, str and int literals, local variables, list/tuple literals;
-               `e.attr` (py_getattr); `self.NAME` for a class-level constant NAME = <literal>; `e[k]`;
+               `e.attr` (py_getattr); `self.NAME` for a class-level constant NAME = <literal>; `e[k]` (a literal str key is
+               compared like a name: py_getitem_lit, proved equal to py_getitem in Proofs/PyDyn.v);
                `==  !=  is None  is not None  in  not in` (one operator per comparison); `and  or  not`; `a if c else b`;
                `a + b`; `len(e)`; `isinstance(e, C)` / `isinstance(e, (C1, C2))` with C a builtin (dict str list int bool)
                or a class of the configured class index that has no subclasses and no __getattr__/__bool__/__len__/...;
@@ -384,6 +387,11 @@ class Unit:
             if p not in defaults or defaults[p] is not v:
                 raise Unsupported("%s: constant parameter %s must default to %r" % (name, p, v))
             self._check_call_sites(name, names, p, v)
+        # the method is what the class body defines: nobody assigns `<something>.name = ...` / deletes it
+        for fpath, tree in self.index.trees.items():
+            for node in ast.walk(tree):
+                if isinstance(node, ast.Attribute) and node.attr == name and isinstance(node.ctx, (ast.Store, ast.Del)):
+                    raise Unsupported("%s.%s is rebound (%s:%s)" % (self.cls, name, fpath, node.lineno))
         self.in_progress.add(name)
         fn = FuncTr(self, name, f, names, defaults, const_params)
         body = fn.function_body()
